@@ -41,6 +41,7 @@ MODELS_ASSUME = [
     "once_cell replaced by a sequential model (the race branch of the real OnceBox yields spurious free() failures under Kani's atomics model)",
 ]
 HASHSET_ASSUME = [
+    "ahash::RandomState::new() (seed of Timers/RandomChoices tables) returns fixed keys: a copy of the real ahash crate with only that function replaced is patched in (its OnceBox + dyn RandomSource + OS entropy path made Kani verdicts depend on the absolute path of dependency crates)",
     "util.rs scratch BUFFER thread_local replaced under cfg(kani) by an object whose `with` hands out a fresh empty buffer (the algorithm clears it first anyway; scratch copy only)",
     "getrandom 0.3 replaced by a fixed-bytes model (hasher seeds only affect iteration order of non-empty hash tables; the harness tables are empty)",
 ]
@@ -121,6 +122,7 @@ PROPS = {
     },
     "C10": {
         "engine": "kani",
+        "ahash_fixed_new": True,
         "files": ["c10.rs"],
         "timeout": {"quick": 900, "thorough": 3000},
         "extra_patches": [GETRANDOM_PATCH],
@@ -142,6 +144,7 @@ PROPS = {
     },
     "C04": {
         "engine": "kani",
+        "ahash_fixed_new": True,
         "files": ["common.rs", "c04.rs"],
         "timeout": {"quick": 400, "thorough": 3000},
         "extra_patches": [GETRANDOM_PATCH],
@@ -161,6 +164,7 @@ PROPS = {
     },
     "C09": {
         "engine": "kani",
+        "ahash_fixed_new": True,
         "files": ["common.rs", "c09.rs"],
         "extra_patches": [GETRANDOM_PATCH],
         "transforms": [BUFFER_TRANSFORM] + MODEL_TRANSFORMS,
